@@ -127,7 +127,8 @@ class TermFamily:
                 yield st1, Raised(ExcVal("TypeError"))
 
     def typeof(self, eng: Any, st: Any, v: ADT, node: Any):
-        raise Unsupported("type() of a generic term", node)
+        from pyvc.values import ExtVal
+        yield st, ExtVal("gterm.type")     # only ever formatted into an exception message
 
     def as_str(self, eng: Any, st: Any, v: ADT) -> Any:
         return None
